@@ -93,7 +93,10 @@ class Loc:
     def _key(self):
         if len(self.segs) == 1:
             s = self.segs[0]
-            return id(s) if isinstance(s, SymPath) else str(s)
+            if isinstance(s, SymPath):
+                return id(s)
+            back = sympath.REALISED.get(str(s))
+            return id(back) if back is not None and id(back) in self.root.docs else str(s)
         return None
 
     def read_text(self, encoding=None):
@@ -230,7 +233,8 @@ def reader_scenario(e, cfg):
                 list(d.as_numpy_iterator(split="train", repeat=False, shuffle=0))
             elif step == "shard_infos":
                 list(d.shard_info_iterator("train"))
-        except ValueError as exc:  # rejected when loaded: fine (pydantic's ValidationError is a ValueError)
+        except (ValueError, FileNotFoundError) as exc:
+            # rejected when loaded (pydantic's ValidationError is a ValueError) / no such file inside the root: fine
             rejected = str(exc)[:60]
     return dict(op=cfg["op"], rejected=rejected, accesses=len(root.log))
 
@@ -323,7 +327,7 @@ def _cell(cell):
 
 def run(tier, seed):
     common.import_sedpack()
-    problems = sympath.selftest()
+    problems = sympath.selftest(2 if tier == "quick" else 3)
     K = 3 if tier == "quick" else 4
     cs = [dict(kind="validator", validator=v, K=K) for v in
           ("FileInfo.file_path", "ShardsList.relative_path_self", "filler.relative_path_from_split")]
@@ -337,9 +341,13 @@ def run(tier, seed):
         kind = info.get("kind", c["msg"][:40])
         m = c["model"]
         # which symbolic path escapes, as a concrete string
-        names = [s for s in info.get("segs", []) if f"{s}_len" in m or f"{s}_abs" in m]
+        names = [s for s in info.get("segs", []) if f"{s}_len" in m or f"{s}_root" in m]
         conc = {n: sympath.concrete_from_model(n, m) for n in names}
-        flavour = "absolute" if any(m.get(f"{n}_abs") for n in names) else "dotdot"
+        for lit in info.get("segs", []):
+            if lit not in conc and ("w/.." in lit or "\\" in lit):
+                conc[f"literal:{lit[:6]}"] = "w\\..\\..\\..\\x"
+        flavour = ("winsep" if any("\\" in v for v in conc.values()) else
+                   "absolute" if any(m.get(f"{n}_root") for n in names) else "dotdot")
         sig = f"C17:{kind}:{flavour}"
         if sig in seen:
             continue
@@ -354,7 +362,7 @@ def run(tier, seed):
                     "compatible with the execution path (i.e. accepted by the validators that ran).",
         functions=FUNCS,
         bounds=dict(parts_per_path=f"<= {K} (validators, writer), <= {2 if tier == 'quick' else 3} (reader tree with 4 independent paths)",
-                    alphabet=list(sympath.TOK.values()) + ["absolute flag"], tree="top list -> 1 shard + 1 child list -> 1 shard"),
+                    alphabet=list(sympath.TOK.values()) + ["root in {none, /, //}"], tree="top list -> 1 shard + 1 child list -> 1 shard"),
         stats=st.as_dict(), samples=st.samples,
         assumptions=["no symbolic links inside the dataset directory (the property is about path strings)",
                      "pathlib parsing drops '.' and empty components (self-tested)",
@@ -386,7 +394,8 @@ def replay(case):
             p = next(iter(paths.values()))
             # make absolute paths point into the scratch area
             if p.startswith("/"):
-                p = str(tmp / "abs" / p.lstrip("/"))
+                two = p.startswith("//") and not p.startswith("///")
+                p = ("/" if two else "") + str(tmp / "abs" / p.lstrip("/"))
             try:
                 if which == "FileInfo.file_path":
                     FileInfo(file_path=p)
@@ -408,25 +417,59 @@ def replay(case):
                 return False, f"rejected: {str(exc)[:80]}"
             return True, f"{which} accepted {p!r}"
         # reader / writer join-site escapes: build a real dataset, then point one metadata path outside
+        import shutil
         from ..fillerlab import example, make_dataset
-        d = make_dataset(root / "d", eps=1)
+        bad = next(iter(paths.values())) if paths else "../x"
+
+        def spell(outside: Path, rel_from_root: str):
+            """The escaping spelling of the model, aimed at a real file outside the root."""
+            if "\\" in bad:
+                return "train\\..\\" + rel_from_root.replace("/", "\\")
+            if bad.startswith("//") and not bad.startswith("///"):
+                return "/" + str(outside)
+            if bad.startswith("/"):
+                return str(outside)
+            return rel_from_root
+
+        outcomes = []
+        # variant 1: a shard file path pointing outside
+        d = make_dataset(root / "d1", eps=1)
+        with d.filler() as f:
+            f.write_example(values=example(7), split="train")
+        lst = d.path / "train" / "shards_list.json"
+        doc = json.loads(lst.read_text())
+        inside = d.path / doc["shard_files"][0]["file_infos"][0]["file_path"]
+        outside = outer / "secret" / "x.fb"
+        outside.parent.mkdir(parents=True, exist_ok=True)
+        shutil.move(str(inside), str(outside))
+        doc["shard_files"][0]["file_infos"][0]["file_path"] = spell(outside, "../../secret/x.fb")
+        lst.write_text(json.dumps(doc))
+        try:
+            got = [int(e["a"][0]) for e in Dataset(d.path).as_numpy_iterator(split="train", repeat=False, shuffle=0)]
+            if got == [7]:
+                return True, f"shard path {doc['shard_files'][0]['file_infos'][0]['file_path']!r} was accepted and the example was read from {outside} (outside the root)"
+            outcomes.append(f"shard variant read {got}")
+        except Exception as exc:  # noqa: BLE001
+            outcomes.append(f"shard variant rejected: {type(exc).__name__}: {str(exc)[:80]}")
+        # variant 2: the split's shard list path pointing outside
+        d = make_dataset(root / "d2", eps=1)
         with d.filler() as f:
             f.write_example(values=example(0), split="train")
         secret = outer / "secret_shards" / "shards_list.json"
-        secret.parent.mkdir(parents=True)
+        secret.parent.mkdir(parents=True, exist_ok=True)
         top = d.path / "train" / "shards_list.json"
-        secret.write_text(top.read_text())
+        shutil.move(str(top), str(secret))
         info = json.loads((d.path / "dataset_info.json").read_text())
-        bad = next(iter(paths.values())) if paths else "../x"
-        target = str(secret) if bad.startswith("/") else "../../secret_shards/shards_list.json"
+        target = spell(secret, "../../secret_shards/shards_list.json")
         info["splits"]["train"]["shard_list_info_file"]["file_path"] = target
         (d.path / "dataset_info.json").write_text(json.dumps(info))
         try:
             d2 = Dataset(d.path)
-            list(d2.shard_info_iterator("train"))
+            n = len(list(d2.shard_info_iterator("train")))
+            return True, f"metadata path {target!r} outside the root was accepted and read ({n} shard infos)"
         except Exception as exc:  # noqa: BLE001
-            return False, f"rejected on load: {type(exc).__name__}: {str(exc)[:100]}"
-        return True, f"metadata path {target!r} outside the root was accepted and read"
+            outcomes.append(f"list variant rejected: {type(exc).__name__}: {str(exc)[:80]}")
+        return False, "; ".join(outcomes)
 
 
 def _snapshot(tmp, inside):
